@@ -341,6 +341,9 @@ func (w *lWorld) burstCompatible(burst []Op, op Op) bool {
 		if b.A == op.A {
 			return false
 		}
+		if b.Kind == "register" && op.Kind == "register" {
+			continue // registrations of different producers commute, also on the same (possibly new) topic/channel
+		}
 		if b.Kind != "ping" && op.Kind != "ping" && w.topicName(b.B) == w.topicName(op.B) {
 			return false
 		}
